@@ -78,7 +78,8 @@ def main(tier, replay):
         "BinNormalisationPETFromComponents = product of the two crystal efficiencies (0 in gaps); ML_estimate_component_based_normalisation end to end on tiny "
         "scanners (exact and Poisson data, with and without gaps; files under build/out): every eff/geo/block file equals the documented sequence of iterate_* "
         "steps recomputed from the building blocks, the written efficiencies do not increase the KL distance (while the model in use is symmetric), exact data are fitted. "
-        "Two seed-independent minimal reproductions of candidate defects are evaluated on every run (KNOWN-CANDIDATE keys geo-fixed-point:..., kl-descent:...).",
+        "Two seed-independent minimal cases are evaluated on every run: the geometric fixed point on 5 rings (regression case of the repaired "
+        "make_geo_data condition, strict) and the known finding kl-descent:library-KL-counts-in-ring-LORs-twice (KNOWN-CANDIDATE).",
         extra=dict(input_distribution=info))
     chk.assumptions += ["the detector-pair <-> bin map is a parameter of the Lean model (property C01); the harness takes it from the real get_det_pos_pair_for_bin",
                         "float arithmetic is modelled exactly in Rat (binary64 for the in-place efficiency sweep on more than 9 detectors and for log) and compared with a derived forward bound",
